@@ -8,6 +8,7 @@
 mod alloc;
 mod canon;
 mod net;
+mod quake;
 mod reader;
 mod valve;
 
@@ -23,6 +24,7 @@ fn entries() -> Vec<(&'static str, EntryFn)> {
     let mut v: Vec<(&'static str, EntryFn)> = Vec::new();
     v.extend(reader::entries());
     v.extend(valve::entries());
+    v.extend(quake::entries());
     v
 }
 
